@@ -12,6 +12,10 @@ def hook_commits():
         return []
 
 CHECKS = {
+ "C01": dict(
+    text="Differential runtime monitor: the real tokenizer's delivered tokens (coalesced characters, NUL distinct, errors dropped) are compared with an independent WHATWG reference tokenizer under the same start state, last start tag and sink policy; every (state x character class x suffix) single transition from all seven content-model start states, class pairs, and millions of random markup-soup cases under tree-builder-like, constant and hashed sink policies (incl. both answers of the foreign query).",
+    note="trusts the hand-written reference tokenizer (validated against committed vectors; no spec copy or second parser exists offline) and the entity table exported from Python's html.entities",
+    technique="runtime monitoring: recorded token history checked against an executable reference model (differential)"),
  "C03": dict(
     text="Metamorphic runtime monitor: every chunked/paused execution of the real tokenizer and parser is compared with the one-piece execution of the same input (coalesced tokens incl. parse errors, lines, suspension sequence, tree, quirks). All 2-chunk and all-1-char schedules of every enumerated single-transition input plus random schedules of generated documents; script-pause injections compared with the spliced source.",
     note="oracle = the real code on the unchunked input; defects that affect chunked and unchunked runs alike are invisible here (C01/C02 cover those)",
@@ -28,6 +32,22 @@ CHECKS = {
     text="Invariant at quiescence: after every generated document parse (grammar, scenarios, skeleton-focused soup; exhaustive 2-chunk schedules of short inputs, random schedules; both scripting settings) the finished tree of the abstract DOM and of RcDom is walked by a skeleton checker.",
     note="'frameset optionally followed by noframes' read as 'only noframes may follow'; one spec-mandated exception is a listed known finding",
     technique="runtime monitoring: structural invariant checked on the finished tree"),
+ "C08": dict(
+    text="Metamorphic option-flip monitor: two executions of the real code on the same input and schedule differing in exactly one of exact_errors / profile / discard_bom / drop_doctype (HTML tokenizer, tree builder, XML) are compared (tokens minus parse errors with lines, tree, quirks); includes SIMD-offset text runs (exact_errors forces the scalar path) and all enumerated tokenizer transitions.",
+    note="oracle = the real code under the other option value",
+    technique="runtime monitoring: metamorphic comparison of two recorded executions differing in one option"),
+ "C09": dict(
+    text="Line monitor: each non-character token and the end of each character run must carry 1 + the line breaks consumed by the reference tokenizer at that emission; EOF = 1 + breaks of the whole input (counted independently). LF/CR/CRLF substituted at every position of every tokenizer-state prefix x continuation, under all 2-chunk and 1-char schedules; token-by-token check that the tree builder forwards the line to the sink.",
+    note="trusts the reference tokenizer's consumed-offset bookkeeping; token streams that differ from the model are left to C01",
+    technique="runtime monitoring: (token, line) history checked against a position-tracking reference model"),
+ "C14": dict(
+    text="Exhaustive differential over the finite space: 2231 names x {exact, no semicolon, truncated, extended, name-prefixes} x 15 follower classes x 5 contexts, every numeric value 0..=0x110000 in decimal/x/X with several terminators, overflow lengths and non-references; judged by a direct resolver over an independent entity table and by the reference tokenizer; web_atoms' generated table compared entry by entry incl. prefix entries; XML tokenizer for '&name;' and numeric forms.",
+    note="entity table from Python's html.entities.html5; C1 table hard-coded from windows-1252; XML5 no-semicolon rules not claimed",
+    technique="runtime monitoring: exhaustive enumeration of the finite reference space with two independent oracles"),
+ "C15": dict(
+    text="Metamorphic monitor for xml5ever: one-piece default run vs every 2-chunk split, 1-char chunks, random partitions, exact_errors, and vs the run on the CR/NUL-pre-normalised source (tokens minus errors and tree); targeted matrix placing CR/CRLF/NUL/U+FEFF in every tokenizer context incl. next to and inside character references, plus random XML.",
+    note="oracle = the real code on a related execution; no XML5 specification needed",
+    technique="runtime monitoring: metamorphic comparison across feed schedules, options and source normalisation"),
  "C18": dict(
     text="GC-simulating sink: at every feed() return (1-character chunks, random schedules, script pauses) trace_handles is called and every node unreachable from the traced handles is poisoned; any later sink call receiving a poisoned handle is a violation, and the final tree must equal the run without collection. HTML documents, fragments and XML.",
     note="reachability over parent/children/template-contents edges as the property states; only meaningful when collections actually poison nodes (counted in evidence)",
